@@ -6,15 +6,15 @@ always hand the original result / exception through):
 * ``dclab.downsampling.downsample_rand`` / ``downsample_grid`` (module attributes; core.py
   and filter.py look them up per call, so calls made by ``get_downsampled_scatter`` and by
   the ``limit events`` filter are judged as well).  Post-conditions, all taken from the
-  statement (model/c16_model.py): returned values are ``input[mask]`` bit for bit, mask is a
+  statement (model/c16_model.py): returned values are ``input[mask]`` value for value (nan = nan), mask is a
   boolean array of the input length, nothing ineligible is returned, the number returned is
   the request (all eligible events if fewer exist, all for request 0 = "no downsampling"),
   an immediately repeated call, a call on a perturbed numpy global random state and - for
   the memoised grid function - a fresh computation bypassing the memo all return the same
-  bits; calls without ``ret_idx`` return the same values as with it.  Exceptions are events.
+  selection; calls without ``ret_idx`` return the same values as with it.  Exceptions are events.
 * ``RTDCBase.get_downsampled_scatter``: OLD snapshot of ``filter.all``; the mask has
   ``len(ds)`` entries, lies inside the filter, selects exactly the returned x/y values
-  (unscaled, bit for bit), count/eligibility by the statement with validity judged on the
+  (unscaled, value for value), count/eligibility by the statement with validity judged on the
   requested scale; ``ret_mask=False`` returns the same values.
 * ``Filter.update``: with ``limit events = L > 0`` the combined filter is a subset of
   box & invalid & polygon & manual with exactly min(L, #passing) events.
@@ -46,7 +46,7 @@ RULE = ("fn: generated pair of arrays (12 point distributions incl. constant axe
         "(kind, input bytes, request, flags)")
 LEVEL_TEXT = ("Held on the observed executions: every result of the built downsampling "
               "routines, of get_downsampled_scatter and of the event-limit filter seen during "
-              "the generated and the exhaustively enumerated small workloads was a bit-exact, "
+              "the generated and the exhaustively enumerated small workloads was an unaltered, "
               "duplicate-free selection of eligible input events of the size the statement "
               "demands, with a mask selecting exactly those events, and equal under repetition "
               "(cached, uncached, perturbed global random state, interleaved, rebuilt dataset). "
@@ -66,7 +66,8 @@ ASSUMPTIONS = [
     "1-d numeric ndarrays of equal length, integer arrays whose range overflows their dtype, "
     "unknown scale names or feature names (documented errors), which of the eligible events "
     "are selected, side effects on the numpy global random state, aliasing of the returned "
-    "arrays with the input or the memo (C17)",
+    "arrays with the input or the memo (C17), a returned dtype that differs from the input "
+    "while the values are equal (counted)",
     "on the dataset level the eligible events are those passing ds.filter.all as observed "
     "before the call, invalid = nan/inf after the requested scale (log of values <= 0)",
 ]
@@ -105,9 +106,9 @@ def plan(tier, seed):
     q = tier == "quick"
     shards = []
     # cost per case (one core): fn ~2 ms, ds ~30 ms, limit ~13 ms, exhaustive array 5-9 ms
-    shards += _split("fn", 24000 if q else 500000, 8 if q else 48)
-    shards += _split("ds", 2400 if q else 30000, 8 if q else 48)
-    shards += _split("limit", 1600 if q else 30000, 4 if q else 16)
+    shards += _split("fn", 24000 if q else 400000, 8 if q else 48)
+    shards += _split("ds", 2400 if q else 24000, 8 if q else 48)
+    shards += _split("limit", 1600 if q else 24000, 4 if q else 16)
     e = EXH[tier]
     n_rand = sum(len(G.ALPHA1) ** n for n in range(e["rand_len"] + 1))
     shards += _split("exh_rand", n_rand, 1 if q else 8, max_len=e["rand_len"])
